@@ -95,7 +95,9 @@ func newGoBackNConn(ctx context.Context, cfg *config,
 		cfg:               cfg,
 		recvDataChan:      make(chan *PacketData, cfg.n),
 		sendDataChan:      make(chan *PacketData),
-		receivedACKSignal: make(chan struct{}),
+		// The signal channel is buffered so that a signal sent while the
+		// send loop is busy (and not yet listening) is not lost.
+		receivedACKSignal: make(chan struct{}, 1),
 		resendSignal:      make(chan struct{}, 1),
 		remoteClosed:      make(chan struct{}),
 		ctx:               ctxc,
